@@ -35,11 +35,23 @@ def build(c):
 
 
 def fingerprint(alg):
+    import hashlib
     out = []
     for s in alg.result:
         dec = [alg.problem.types[i].decode(s.variables[i]) for i in range(alg.problem.nvars)]
         out.append([repr(dec), [struct.pack("<d", float(o)).hex() for o in s.objectives], float(s.constraint_violation)])
-    return {"nfe": alg.nfe, "result": out}
+    # the result alone can be a coarse observable (an epsilon archive with two members): every solution collection the algorithm
+    # holds and the state of the global generator are part of where a seeded run "is"
+    colls = {}
+    for name in tracer.COLLECTIONS:
+        v = getattr(alg, name, None)
+        if v is not None and name != "result":
+            try:
+                colls[name] = hashlib.blake2b(json.dumps(canon(list(v), set()), sort_keys=True, default=str).encode(), digest_size=8).hexdigest()
+            except TypeError:
+                pass
+    colls["<random.getstate()>"] = hashlib.blake2b(repr(random.getstate()).encode(), digest_size=8).hexdigest()
+    return {"nfe": alg.nfe, "result": out, "collections": colls}
 
 
 SKIP_ATTRS = {"problem", "evaluator", "algorithm", "function"}
@@ -83,24 +95,27 @@ def state_digest(alg):
 
 def main(c):
     mode = c["mode"]
+    budgets = c["budgets"]
+    n = c.get("save_after", len(budgets) - 1)        # the checkpoint is written after this many run calls
     if mode == "run":
         random.seed(c["seed"])
         alg = build(c)
-        for i, b in enumerate(c["budgets"]):
-            if c.get("gauss_pending") and i == len(c["budgets"]) - 1 and i > 0:
+        for i, b in enumerate(budgets):
+            if c.get("gauss_pending") and i == n and i > 0:
                 random.gauss(0.0, 1.0)        # the same user draw as in "save" mode, at the same place
             alg.run(b)
         return fingerprint(alg)
     if mode == "save":
         random.seed(c["seed"])
         alg = build(c)
-        for b in c["budgets"][:-1]:
+        for b in budgets[:n]:
             alg.run(b)
         if c.get("gauss_pending"):
             random.gauss(0.0, 1.0)        # user code drew one Gaussian between run calls: its twin is now cached inside the generator
         platypus.save_state(c["file"], alg, json=bool(c.get("json")))
         digest = state_digest(alg)
-        alg.run(c["budgets"][-1])
+        for b in budgets[n:]:
+            alg.run(b)
         return dict(fingerprint(alg), state=digest)
     if mode == "resume":
         random.seed(987654321)
@@ -108,7 +123,8 @@ def main(c):
             random.random(); random.gauss(0, 1)
         alg = platypus.load_state(c["file"])
         digest = state_digest(alg)
-        alg.run(c["budgets"][-1])
+        for b in budgets[n:]:
+            alg.run(b)
         return dict(fingerprint(alg), state=digest)
     raise ValueError(mode)
 
